@@ -338,6 +338,10 @@ pub fn judge_c15(cx: &DeliveryCtx, out: &mut RunOut) {
     if ret.parts.method != *submitted.method() {
         bad.push(format!("method {} != {}", ret.parts.method, submitted.method()));
     }
+    match ret.parts.extensions.get::<libi::Marker>() {
+        Some(m) if *m == libi::Marker(cx.ix) => out.probe("extension_passed_through"),
+        other => bad.push(format!("request extensions: the marker attached to the submitted request came back as {:?}", other)),
+    }
     if ret.parts.version != submitted.version() {
         bad.push(format!("version {:?} != {:?}", ret.parts.version, submitted.version()));
     }
